@@ -11,8 +11,11 @@ package main
 import (
 	"fmt"
 	"hash/fnv"
+	"math"
+	"runtime/debug"
 	"sort"
 	"strings"
+	"time"
 
 	"github.com/smart-core-os/sc-api/go/traits"
 	"google.golang.org/protobuf/proto"
@@ -50,10 +53,21 @@ func run(r *vk.Run) {
 		"WithReadPaths is documented to panic on invalid paths: that panic is treated as validation rejecting the mask, not as a read panicking",
 		"projection of a corrupted mask is not judged (only: no panic, no mutation, validation reports it)")
 	m := &mon{r: r, minBudg: map[string]int{}}
+	debug.SetGCPercent(400) // short-lived clones dominate; memory stays small
+	t0 := time.Now()
+	lap := func(name string) { // wall-clock only as a remark in the evidence, never in a decision
+		if r.Shard == 0 {
+			r.Note("phase %s finished at %.1fs (worker 0)", name, time.Since(t0).Seconds())
+		}
+	}
 	m.canaries()
+	lap("canaries")
 	m.corruptPhase()
+	lap("corrupt")
 	m.exhaustivePhase()
+	lap("exhaustive")
 	m.randomPhase()
+	lap("random")
 	m.unknownFieldObservations()
 
 	q := r.Quick()
@@ -65,8 +79,8 @@ func run(r *vk.Run) {
 	}
 	for _, e := range entries {
 		min := pick(2000, 20000)
-		if e.pull {
-			min = pick(1000, 20000)
+		if e.pull || e.rare {
+			min = pick(1000, 10000)
 		}
 		r.Require("ep/"+e.name, min)
 	}
@@ -91,8 +105,10 @@ func run(r *vk.Run) {
 type failure struct {
 	clause string // panic | mutated-stored | mutated-input | mutated-mask | shape | projection
 	kind   string // observation kind for projection failures
-	detail string
+	detail func() string
 }
+
+func text(s string) func() string { return func() string { return s } }
 
 func (f failure) id() string { return f.clause + ":" + f.kind }
 
@@ -104,7 +120,7 @@ func (m *mon) evaluate(ep *entry, in *input, silent bool) (fs []failure, harness
 		if strings.HasPrefix(what, "harness:") {
 			return nil, what
 		}
-		return []failure{{clause: "panic", detail: what}}, ""
+		return []failure{{clause: "panic", detail: text(what)}}, ""
 	}
 	for _, mu := range out.mutated {
 		cl := "mutated-stored"
@@ -114,19 +130,29 @@ func (m *mon) evaluate(ep *entry, in *input, silent bool) (fs []failure, harness
 		case strings.HasPrefix(mu, "mask"):
 			cl = "mutated-mask"
 		}
-		fs = append(fs, failure{clause: cl, detail: mu})
+		fs = append(fs, failure{clause: cl, detail: text(mu)})
 	}
 	for _, s := range out.shape {
-		fs = append(fs, failure{clause: "shape", detail: s})
+		fs = append(fs, failure{clause: "shape", detail: text(s)})
 	}
 	if !silent {
 		m.r.Count("watched-messages-verified", out.watched)
 	}
 	if !projectable(in.md, in.paths) {
+		// what a read with a corrupted mask returns is not judged: only panics and mutations are
 		if !silent {
 			m.r.Count("corrupt-read-returned-without-panic", 1)
+			if out.closedNoCrash {
+				m.r.Count("corrupt-pull-stream-ended-early-without-crash", 1)
+			}
 		}
-		return fs, ""
+		keep := fs[:0]
+		for _, f := range fs {
+			if f.clause != "shape" {
+				keep = append(keep, f)
+			}
+		}
+		return keep, ""
 	}
 	var tree *node
 	if !in.nilMask {
@@ -145,8 +171,10 @@ func (m *mon) evaluate(ep *entry, in *input, silent bool) (fs []failure, harness
 			}
 		}
 		if res == cmpDifferent {
-			fs = append(fs, failure{clause: "projection", kind: o.kind,
-				detail: fmt.Sprintf("returned %s\nreference projection %s\nstored/passed %s", vk.JSON(o.got), vk.JSON(want), vk.JSON(o.src))})
+			o := o
+			fs = append(fs, failure{clause: "projection", kind: o.kind, detail: func() string {
+				return fmt.Sprintf("returned %s\nreference projection %s\nstored/passed %s", vk.JSON(o.got), vk.JSON(want), vk.JSON(o.src))
+			}})
 		}
 	}
 	return fs, ""
@@ -202,6 +230,7 @@ func (m *mon) check(ep *entry, in *input) {
 	}
 	for _, f := range fs {
 		cls := pre
+		head := fmt.Sprintf("mask %v nil=%v", in.paths, in.nilMask)
 		if valid && !in.nilMask && len(in.paths) > 1 {
 			bk := ep.name + "|" + f.id() + "|" + pre
 			left, ok := m.minBudg[bk]
@@ -226,15 +255,18 @@ func (m *mon) check(ep *entry, in *input) {
 				return false
 			})
 			cls = maskClass(in.md, min, false)
-			f.detail = fmt.Sprintf("minimal failing mask %v (from %v)\n%s", min, in.paths, f.detail)
-		} else {
-			f.detail = fmt.Sprintf("mask %v nil=%v\n%s", in.paths, in.nilMask, f.detail)
+			head = fmt.Sprintf("minimal failing mask %v (from %v)", min, in.paths)
 		}
 		name := ep.name
 		if f.kind != "" {
 			name += "." + f.kind
 		}
-		r.Violation("C06/"+f.clause+"/"+name+"/"+cls, f.detail, m.replay(ep.name, in))
+		key := "C06/" + f.clause + "/" + name + "/" + cls
+		if r.Violated(key) {
+			r.Violation(key, "", nil) // counted only
+			continue
+		}
+		r.Violation(key, head+"\n"+f.detail(), m.replay(ep.name, in))
 	}
 }
 
@@ -339,7 +371,7 @@ func (m *mon) runCase(phase string, in *input, withPull bool) {
 	}
 	m.validation(in)
 	for _, e := range entries {
-		if e.pull && !withPull {
+		if e.pull && !withPull || e.rare && in.variant%8 != 0 {
 			continue
 		}
 		m.check(e, in)
@@ -349,6 +381,74 @@ func (m *mon) runCase(phase string, in *input, withPull bool) {
 		r.Sample(phase+"/"+short, map[string]any{"type": string(in.md.FullName()), "mask": in.paths, "nil_mask": in.nilMask,
 			"stored": trunc(vk.JSON(in.msgs[0])), "FilterClone_returned": trunc(vk.JSON(got)),
 			"reference": trunc(vk.JSON(vk.RefProject(in.msgs[0], in.paths, in.nilMask)))})
+	}
+}
+
+// gen is vk.GenMessage with negative zeros replaced by +0: proto.Clone (used by the harness for its shadow copies
+// and by the library) does not preserve the sign of a zero in a field without presence, which is not what C06 is about.
+func gen(rng *vk.Rand, like proto.Message, o vk.GenOpts) proto.Message {
+	x := vk.GenMessage(rng, like, o)
+	fixNegZero(x.ProtoReflect())
+	return x
+}
+
+func fixNegZero(m protoreflect.Message) {
+	fixv := func(fd protoreflect.FieldDescriptor, v protoreflect.Value) (protoreflect.Value, bool) {
+		switch fd.Kind() {
+		case protoreflect.FloatKind:
+			if f := v.Float(); f == 0 && math.Signbit(f) {
+				return protoreflect.ValueOfFloat32(0), true
+			}
+		case protoreflect.DoubleKind:
+			if f := v.Float(); f == 0 && math.Signbit(f) {
+				return protoreflect.ValueOfFloat64(0), true
+			}
+		}
+		return v, false
+	}
+	type fix struct {
+		fd protoreflect.FieldDescriptor
+		v  protoreflect.Value
+	}
+	var fixes []fix
+	m.Range(func(fd protoreflect.FieldDescriptor, v protoreflect.Value) bool {
+		switch {
+		case fd.IsMap():
+			mp := v.Map()
+			vd := fd.MapValue()
+			var ks []protoreflect.MapKey
+			mp.Range(func(k protoreflect.MapKey, e protoreflect.Value) bool {
+				if vd.Message() != nil {
+					fixNegZero(e.Message())
+				} else if _, ch := fixv(vd, e); ch {
+					ks = append(ks, k)
+				}
+				return true
+			})
+			for _, k := range ks {
+				nv, _ := fixv(vd, mp.Get(k))
+				mp.Set(k, nv)
+			}
+		case fd.IsList():
+			l := v.List()
+			for i := 0; i < l.Len(); i++ {
+				if fd.Message() != nil {
+					fixNegZero(l.Get(i).Message())
+				} else if nv, ch := fixv(fd, l.Get(i)); ch {
+					l.Set(i, nv)
+				}
+			}
+		case fd.Message() != nil:
+			fixNegZero(v.Message())
+		default:
+			if nv, ch := fixv(fd, v); ch {
+				fixes = append(fixes, fix{fd, nv})
+			}
+		}
+		return true
+	})
+	for _, f := range fixes {
+		m.Set(f.fd, f.v)
 	}
 }
 
@@ -400,7 +500,7 @@ func (m *mon) corruptPhase() {
 			r.Count("corrupt-paths-generated", len(cps))
 		}
 		full := fullMsg(like, 1)
-		other := vk.GenMessage(rng, like, vk.GenOpts{Density: 50, MaxDepth: 2, MaxList: 2})
+		other := gen(rng, like, vk.GenOpts{Density: 50, MaxDepth: 2, MaxList: 2})
 		for ci, cp := range cps {
 			c := vk.ClassifyPath(md, cp)
 			if c == vk.PathValid || c == vk.PathThroughRepMsg {
@@ -477,11 +577,11 @@ func (m *mon) exhaustivePhase() {
 				}
 			}
 		}),
-		vk.GenMessage(rng, like, vk.GenOpts{Density: 30, MaxDepth: 2, MaxList: 3}),
-		vk.GenMessage(rng, like, vk.GenOpts{Density: 60, MaxDepth: 3, MaxList: 3, Special: true}),
-		vk.GenMessage(rng, like, vk.GenOpts{Density: 90, MaxDepth: 2, MaxList: 2}),
+		gen(rng, like, vk.GenOpts{Density: 30, MaxDepth: 2, MaxList: 3}),
+		gen(rng, like, vk.GenOpts{Density: 50, MaxDepth: 2, MaxList: 2, Special: true}),
+		gen(rng, like, vk.GenOpts{Density: 70, MaxDepth: 2, MaxList: 2}),
 	}
-	pullEvery := r.Pick(3, 1)
+	pullEvery := r.Pick(4, 1)
 	total := 0
 	do := func(md protoreflect.MessageDescriptor, msgs []proto.Message, paths []string, nilMask bool) {
 		for k := range msgs {
@@ -520,7 +620,7 @@ func (m *mon) exhaustivePhase() {
 		tm := []proto.Message{
 			fullMsg(tl, 1),
 			func() proto.Message { x := tl.ProtoReflect().New(); hollow(x, 2); return x.Interface() }(),
-			vk.GenMessage(rng, tl, vk.GenOpts{Density: 55, MaxDepth: 3, MaxList: 3}),
+			gen(rng, tl, vk.GenOpts{Density: 55, MaxDepth: 3, MaxList: 3}),
 		}
 		r.Count("trait-pool-paths", 0)
 		if r.Shard == 0 {
@@ -558,8 +658,11 @@ func (m *mon) randomPhase() {
 		md := like.ProtoReflect().Descriptor()
 		var ms [3]proto.Message
 		for k := range ms {
-			o := vk.GenOpts{Density: rng.Range(15, 100), MaxDepth: rng.Range(1, 3), MaxList: rng.Range(1, 3), Special: rng.Chance(1, 5)}
-			ms[k] = vk.GenMessage(rng, like, o)
+			o := vk.GenOpts{Density: rng.Range(10, 70), MaxDepth: rng.Range(1, 2), MaxList: rng.Range(1, 3), Special: rng.Chance(1, 5)}
+			if rng.Chance(1, 5) {
+				o.MaxDepth = 3
+			}
+			ms[k] = gen(rng, like, o)
 		}
 		if rng.Chance(1, 10) {
 			ms[0] = fullMsg(like, rng.Intn(4))
@@ -615,7 +718,7 @@ func (m *mon) unknownFieldObservations() {
 	like := &testproto.TestAllTypes{}
 	for i := 0; i < 50; i++ {
 		rng := r.CaseRand("unknown", i)
-		msg := vk.GenMessage(rng, like, vk.GenOpts{Density: 50, MaxDepth: 2, MaxList: 2})
+		msg := gen(rng, like, vk.GenOpts{Density: 50, MaxDepth: 2, MaxList: 2})
 		msg.ProtoReflect().SetUnknown(protoreflect.RawFields{0xc0, 0x3e, byte(i)})
 		got := masks.NewResponseFilter(masks.WithFieldMaskPaths("default_int32")).FilterClone(msg)
 		if len(got.ProtoReflect().GetUnknown()) > 0 {
